@@ -94,6 +94,14 @@ def find_pred(E, s, pred_at, name='idx', width=None, upto_len=False, byte_pred=N
     cb = _concrete_bools(hits) if (s.cbytes is not None or n <= 16) else None
     if cb is not None:
         return [(T, some(I(cb.index(True), 64))), (FALSE, NONE)] if True in cb else [(FALSE, some(I(0, 64))), (T, NONE)]
+    if getattr(E, 'concrete_find', False):
+        # small-string harnesses: one path per concrete position of the first hit (offsets downstream stay concrete)
+        outs, before = [], T
+        for j in range(n):
+            outs.append((z3.simplify(z3.And(before, hits[j])), some(I(j, 64))))
+            before = z3.And(before, z3.Not(hits[j]))
+        outs.append((z3.simplify(before), NONE))
+        return outs
     r = E.fresh_bv(name)
     none_val = s.ln + 1 if upto_len else s.ln
     in_r = z3.ULE(r, s.ln) if upto_len else z3.ULT(r, s.ln)
@@ -835,6 +843,16 @@ def register(E):
         allascii = z3.And(*[z3.Implies(in_window(j, s), z3.ULT(s.at(j), 0x80)) for j in range(cap(E, s))])
         st.note(('assume', 'to_lowercase/to_uppercase: ASCII-only input'))
         return [(allascii, r), (z3.Not(allascii), Panic('OUT-OF-MODEL: Unicode case mapping on non-ASCII input'))]
+
+    @model(r'^<char as std::str::FromStr>::from_str$')
+    def _(E, st, callee, a, m):
+        # exact for one ASCII byte; empty / longer ASCII text is an error; non-ASCII text is outside the model
+        s = as_str(st, a[0])
+        one = z3.And(s.ln == 1, z3.ULT(s.at(0), 0x80))
+        ascii2 = z3.And(z3.UGE(s.ln, 2), z3.ULT(s.at(0), 0x80))
+        e = Opaque('ParseCharError')
+        return [(one, ok(I(z3.ZeroExt(24, s.at(0)), 32))), (z3.Or(s.ln == 0, ascii2), err(e)),
+                (z3.And(s.ln != 0, z3.UGE(s.at(0), 0x80)), Panic('OUT-OF-MODEL: char::from_str on non-ASCII text'))]
 
     @model(r'^core::str::<impl str>::(trim|trim_start|trim_end)$')
     def _(E, st, callee, a, m):
